@@ -329,6 +329,40 @@ func rulesC04(w *World, r *Report) {
 	r.Rule("C04.R4", "derives-from: findBestArchive receives the caller's unclamped from and now; the selected archive r = list[id] provides the retention for clamping, the step and the interval alignment; from is clamped up to now-retention and until down to now; bounds are r.interval(clamped) with until extended by one step exactly when they coincide", 5)
 	ruleOneClockReading(w, r, "C04.R4", "Whisper.Fetch", "Whisper.FetchFromArchive")
 	ruleAddSaturates(w, r, "C04.R4")
+	// the best archive is the first whose retention is at least the age Sub(now, t), found by walking the list in order
+	// (the last one when none is): one comparison, of an archive's own retention with that age
+	if fb := fn(w.Lib, "Whisper.findBestArchive"); fb != nil && len(fb.Params) == 3 {
+		bad := ""
+		n := 0
+		eachInstr(fb, func(in ssa.Instruction) {
+			bo, ok := in.(*ssa.BinOp)
+			if !ok || !isCmp(bo.Op) {
+				return
+			}
+			xs, ys := newExprCtx(w).expr(bo.X), newExprCtx(w).expr(bo.Y)
+			isRet := func(s string) bool {
+				return regexp.MustCompile(`^whispertool\.ArchiveInfo\.MaxRetention\(p0\.header\.archiveInfoList\[.*\]\)$`).MatchString(s) || regexp.MustCompile(`^RET|^\(p0\.header\.archiveInfoList\[.*\]\.secondsPerPoint \*`).MatchString(s)
+			}
+			isAge := func(s string) bool { return s == "whispertool.Timestamp.Sub(p2, p1)" }
+			isLoop := strings.HasPrefix(ys, "len(") || strings.HasPrefix(xs, "len(")
+			if isLoop {
+				return
+			}
+			n++
+			switch {
+			case isRet(xs) && isAge(ys) && (bo.Op == token.GEQ || bo.Op == token.LSS):
+			case isAge(xs) && isRet(ys) && (bo.Op == token.LEQ || bo.Op == token.GTR):
+			default:
+				bad = "the comparison at " + w.instrPos(bo) + " is " + shortExpr(newExprCtx(w).expr(bo)) + ", not `retention of archive i >= now.Sub(t)`"
+			}
+		})
+		for _, c := range callsIn(fb) {
+			if sc := c.Common().StaticCallee(); sc != nil && sc.Pkg != nil && sc.Pkg.Pkg.Path() == "sort" {
+				bad = "the archive is found with sort." + sc.Name() + " (" + w.instrPos(c) + "), whose answer for `no archive is old enough` is len(list), not the last archive"
+			}
+		}
+		r.Check(bad == "" && n == 1, "C04.R4", "findBestArchive:choice", w.pos(fb.Pos()), "first archive with retention >= now.Sub(t), else the last", "findBestArchive: "+bad+": another archive than the finest one reaching back to the requested time is read or written (or the index leaves the list)")
+	}
 	// a fetch fails for its arguments, or because reading the file failed — never for what a slot holds: the functions
 	// FetchFromArchive calls in package whispertool create no errors of their own (they pass on what the page buffer
 	// and the decoders report)
